@@ -11,7 +11,7 @@ from . import sqlproxy as SP
 OPS_ALL = ["mk", "mk", "mk_child", "mk_child", "add", "set", "set", "set_parent", "bs_append", "bs_remove", "bs_replace", "tag_add", "tag_remove",
            "node_parent", "follow", "unfollow", "set_p", "k_rename", "h_doc", "delete", "expunge", "flush", "flush", "commit", "rollback",
            "begin_nested", "sp_commit", "sp_rollback", "close", "requery", "get", "lazy", "expire", "expire_all", "refresh",
-           "mut_data", "mut_items", "ext_update", "merge", "drop", "gc", "pickle_rt", "populate_existing", "q_ops", "g_ops"]
+           "mut_data", "mut_items", "ext_update", "merge", "drop", "gc", "pickle_rt", "populate_existing", "q_ops", "g_ops", "expire_attr", "read"]
 
 
 _ENGINES = {}
@@ -638,7 +638,12 @@ class Run:
         if not self.pair_ok(pa["obj"], p["obj"]) or not self.pair_ok(p["obj"], pa["obj"]):
             return "skip"
         before_members = self.members()
-        if not self.cfg.get("o2o_steal"):
+        self.steal_note = False
+        if self.cfg.get("o2o_steal"):
+            owners = [x for x in self.entries(self.of("A", "A2")) if x["obj"] is not pa["obj"] and OS.loaded(x["obj"], "p")[1] is p["obj"]]
+            ok, cur_p = OS.loaded(pa["obj"], "p")
+            self.steal_note = bool(owners) or (ok and cur_p is not None and cur_p is not p["obj"])
+        else:
             # KF-C37-1: re-assigning a one-to-one member that another loaded owner still refers to does not update that previous owner
             # (asserted by test_backref_mutations.py); unless the run opts in, the previous link is cleared explicitly first
             owners = [x for x in self.entries(self.of("A", "A2")) if x["obj"] is not pa["obj"] and OS.loaded(x["obj"], "p")[1] is p["obj"]]
@@ -1231,6 +1236,63 @@ class Run:
                            % type(x).__name__)
         return e["label"]
 
+    def op_expire_attr(self, a1, a2):
+        """attribute-level expire of one scalar attribute without a pending change; other pending changes of the object must survive"""
+        e = self.pick(a1, lambda e: OS.state_of(e["obj"]) == "persistent" and self.in_session(e["obj"]) and e["obj"] not in self.session.deleted)
+        if e is None:
+            return "skip"
+        o = e["obj"]
+        insp = self.m["inspect"](o)
+        names = [an for an in self.U["scal"][e["cls"]] if not insp.attrs[an].history.has_changes()]
+        if not names:
+            return "skip"
+        an = names[a2 % len(names)]
+        keep = {x: OS.loaded(o, x)[1] for x in self.U["scal"][e["cls"]] if x != an and OS.loaded(o, x)[0] and insp.attrs[x].history.has_changes()}
+        self.session.expire(o, [an])
+        if OS.loaded(o, an)[0]:
+            self.V("C46", "attribute_not_expired", "expire(obj, [%r]) left the attribute loaded" % an)
+        for x, v in keep.items():
+            if OS.loaded(o, x) != (True, v):
+                self.V("C46", "pending_change_lost", "expire(obj, [%r]) discarded the pending change of %r" % (an, x))
+        return "%d.%s" % (e["label"], an)
+
+    def op_read(self, a1, a2):
+        """read every scalar attribute: expired ones must come back with the value the session's transaction sees, loaded ones (including
+        pending changes) stay as they are"""
+        e = self.pick(a1, lambda e: OS.state_of(e["obj"]) == "persistent" and self.in_session(e["obj"]) and e["obj"] not in self.session.deleted)
+        if e is None:
+            return "skip"
+        o = e["obj"]
+        names = self.U["scal"][e["cls"]]
+        was = {an: OS.loaded(o, an) for an in names}
+        if not self.cfg.get("autoflush", True) and (self.session.new or self.session.dirty or self.session.deleted) and \
+                not all(w[0] for w in was.values()):
+            pass        # a load without autoflush: the row the transaction sees is still the right answer for unloaded attributes
+        pk = OS.pk_of(o)
+        got = {}
+        for an in names:
+            try:
+                got[an] = getattr(o, an)
+            except self.m["orm_exc"].ObjectDeletedError:
+                return "gone"
+        now = self.probe()
+        tab = self.tab_of(e["cls"])
+        row = now[tab].get(OS.pk_of(o))
+        if row is None:
+            return "norow"
+        cols = self.U["tables"][tab]
+        for an in names:
+            if was[an][0]:
+                if got[an] != was[an][1]:
+                    self.V("C46", "loaded_value_changed_by_read", "%s #%s.%s was loaded as %r and reads %r" % (e["cls"], pk, an, was[an][1], got[an]))
+                continue
+            dbv = now["a2"][pk][1] if an == "extra" else row[cols.index(an)]
+            if got[an] != dbv:
+                self.V("C46", "expired_attribute_read_stale", "%s #%s.%s was expired and reads %r while the database has %r"
+                       % (e["cls"], pk, an, got[an], dbv))
+        self.prev_tables = now
+        return e["label"]
+
     def op_expire_all(self, a1, a2):
         if self.session.dirty or self.session.deleted or self.session.new:
             return "skip"      # R3
@@ -1310,11 +1372,13 @@ class Run:
 
     def op_ext_update(self, a1, a2):
         """another connection changes a row behind the session's back (committed at once)"""
-        if self.session.in_transaction() and (self.session.new or self.session.dirty or self.session.deleted or self.sp_stack):
+        if self.sp_stack:
             return "skip"
-        if self.session.in_transaction():
-            # release locks held by the session's read state first: SQLite is single-writer
-            return "skip"
+        if self.session.in_transaction() or self.session.new or self.session.dirty or self.session.deleted:
+            # release the locks held by the session's transaction first (SQLite is single-writer): the work so far is committed
+            self.op_commit(0, 0)
+            if self.viol:
+                return "commit-first"
         e = self.pick(a1, lambda e: e["cls"] in ("A", "A2", "B", "K") and OS.pk_of(e["obj"]) is not None)
         if e is None:
             return "skip"
@@ -1352,7 +1416,137 @@ class Run:
         return "%s:%d" % (cn, len(res))
 
     def op_merge(self, a1, a2):
-        return "skip"
+        """C45: Session.merge of (0) a transient copy carrying some scalars, (1) a copy carrying a collection as well (merge cascade),
+        (2) a clean detached instance from a second session with load=False, (3) a brand-new identity"""
+        mode = a2 % 4
+        sess = self.session
+        insp = self.m["inspect"]
+        C = self.U["classes"]
+        if not self.cfg.get("autoflush", True) and (sess.new or sess.dirty or sess.deleted):
+            return "skip"      # R3: merge looks the identity up in the database; without autoflush pending rows would be duplicated
+        if mode == 3:
+            cn = ("A", "A2", "K", "T")[a1 % 4]
+            n = self._newid(cn)
+            src = C[cn](name="k%d" % n, val=a2) if cn == "K" else (
+                C[cn](id=n, name="m%d" % a2, extra="mx%d" % a2) if cn == "A2" else C[cn](id=n, name="m%d" % a2))
+            pk, target, e = (src.name if cn == "K" else n), None, None
+        else:
+            e = self.pick(a1, lambda e: e["cls"] in ("A", "A2", "K", "B", "T") and not e.get("retired") and OS.pk_of(e["obj"]) is not None and (
+                (self.in_session(e["obj"]) and OS.state_of(e["obj"]) == "persistent" and e["obj"] not in sess.deleted) or
+                (OS.state_of(e["obj"]) == "detached" and not insp(e["obj"]).was_deleted)))
+            if e is None:
+                return "skip"
+            cn, pk = e["cls"], OS.pk_of(e["obj"])
+            if pk not in self.prev_tables[self.tab_of(cn)]:
+                return "skip"
+            if any(x["cls"] == "B" and "delete-orphan" in self.U["cfg"]["bs"] and self.in_session(x["obj"]) and
+                   OS.loaded(x["obj"], "a") == (True, None) for x in self.entries()):
+                return "skip"      # an orphan is deleted by the autoflush merge() starts with: its identity is on the way out
+            if any(x["cls"] == "K" and OS.loaded(x["obj"], "name")[0] and insp(x["obj"]).identity is not None and
+                   insp(x["obj"]).identity[0] != OS.loaded(x["obj"], "name")[1] for x in self.entries()):
+                return "skip"      # a primary key change is pending: identities are in motion until the next flush
+            if any(x is not e and x["cls"] in ((cn,) if cn not in ("A", "A2") else ("A", "A2")) and OS.pk_of(x["obj"]) == pk and
+                   self.in_session(x["obj"]) and x["obj"] is not e["obj"] for x in self.entries()) and not self.in_session(e["obj"]):
+                pass
+            target = e["obj"] if self.in_session(e["obj"]) else None
+            if target is None:
+                for x in self.entries():
+                    if x["obj"] is not e["obj"] and self.in_session(x["obj"]) and insp(x["obj"]).key == insp(e["obj"]).key:
+                        target = x["obj"]
+        names = self.U["scal"][cn]
+        given = {}
+        if mode == 2:
+            if cn == "B" and "delete-orphan" in self.U["cfg"]["bs"]:
+                pass
+            if sess.new or sess.dirty or sess.deleted or self.txn_flushed or self.sp_stack:
+                return "skip"      # R3: a detached copy read by another session shows committed state only
+            S = self.m["Session"]
+            s2 = S(self.engine)
+            try:
+                src = s2.get(C["A" if cn == "A2" else cn], pk)
+                if src is None:
+                    return "skip"
+                if cn in ("A", "A2") and a1 % 2:
+                    list(src.bs)
+                given = {an: getattr(src, an) for an in names}
+            finally:
+                s2.close()
+        elif mode != 3:
+            kw = {"name": pk} if cn == "K" else {"id": pk}
+            src = C[cn](**kw)
+            for j, an in enumerate(names):
+                if (a2 >> (2 + j)) & 1 or len(names) == 1:
+                    given[an] = (a2 * 7 + j) if an == "val" else "m%s%d" % (an[0], a2)
+                    setattr(src, an, given[an])
+            if cn in ("A", "A2") and (a2 >> 5) & 1:
+                src.data = {"m": a2}
+                src.items = [a2, a2 + 1]
+        else:
+            given = {an: getattr(src, an) for an in names if an in insp(src).dict}
+        want_bs = None
+        if mode == 1 and cn in ("A", "A2"):
+            rows = sorted(k for k, r in self.prev_tables["b"].items() if r[1] == pk)
+            keep = [k for j, k in enumerate(rows) if (a1 >> j) & 1]
+            if any(x["cls"] == "B" and OS.pk_of(x["obj"]) in rows and (x["obj"] in sess.deleted or OS.state_of(x["obj"]) == "deleted")
+                   for x in self.entries()):
+                return "skip"
+            if len(keep) != len(rows) and not self.U["cfg"]["fk_nullable"] and "delete-orphan" not in self.U["cfg"]["bs"]:
+                return "skip"
+            src.bs = [C["B"](id=k, val=500 + k) for k in keep]
+            if a1 % 3 == 0 and len(self.entries(self.of("B"))) < 8:
+                src.bs.append(C["B"](id=self._newid("B"), val=600))
+            want_bs = sorted(b.id for b in src.bs)
+        del self.sql[:]
+        before_dirty = None
+        if mode == 2:
+            merged = sess.merge(src, load=False)
+            if self.sql:
+                self.V("C45", "merge_load_false_emitted_sql", "merge(load=False) emitted SQL: %s" % self.sql[0][0][:70])
+            if merged in sess.dirty or sess.is_modified(merged):
+                self.V("C45", "merge_load_false_flagged_change", "merge(load=False) of a clean %s flagged the session's instance as modified" % cn)
+        else:
+            merged = sess.merge(src)
+        if merged is src or insp(src).session is not None:
+            self.V("C45", "merge_adopted_given_object", "merge() put the given %s itself into the session" % cn)
+        if not self.in_session(merged):
+            self.V("C45", "merged_instance_not_in_session", "merge() returned a %s that is not in the session" % cn)
+        if target is not None and merged is not target:
+            self.V("C45", "merge_returned_other_instance", "merge() returned a different object than the session's instance for %s #%s" % (cn, pk))
+        if OS.pk_of(merged) != pk:
+            self.V("C45", "merge_returned_other_identity", "merge() of %s #%s returned an instance with identity %s" % (cn, pk, OS.pk_of(merged)))
+        st = OS.state_of(merged)
+        if mode == 3 and st != "pending" or mode != 3 and st != "persistent":
+            self.V("C45", "merged_instance_state", "merge() of %s identity returned a %s instance" % ("a new" if mode == 3 else "an existing", st))
+        for an, val in given.items():
+            got = OS.loaded(merged, an)
+            if got != (True, val):
+                self.V("C45", "merged_state_differs", "after merge %s #%s.%s is %r, the given object had %r" % (cn, pk, an, got[1] if got[0] else "<unloaded>", val))
+        if mode != 2 and mode != 3 and cn in ("A", "A2") and (a2 >> 5) & 1:
+            if dict(merged.data or {}) != {"m": a2} or list(merged.items or []) != [a2, a2 + 1]:
+                self.V("C45", "merged_state_differs", "after merge A #%s mutable values are %r / %r" % (pk, merged.data, merged.items))
+        if want_bs is not None:
+            got_bs = sorted(OS.pk_of(b) for b in merged.bs)
+            if got_bs != want_bs:
+                self.V("C45", "merged_collection_differs", "after merge A #%s.bs holds %s, the given object's collection held %s" % (pk, got_bs, want_bs))
+            for b in merged.bs:
+                if not self.in_session(b) or any(b is sb for sb in src.bs):
+                    self.V("C45", "merge_cascade_missed", "a member of the merged collection is not a session instance")
+                elif OS.pk_of(b) in [sb.id for sb in src.bs if sb.val >= 500] and OS.loaded(b, "val")[1] != [sb.val for sb in src.bs if sb.id == OS.pk_of(b)][0]:
+                    self.V("C45", "merged_state_differs", "merge cascade did not copy B #%s.val" % OS.pk_of(b))
+        # merging the same state again changes nothing
+        snap = lambda: ({an: OS.loaded(merged, an) for an in names}, sorted(OS.pk_of(b) for b in merged.bs) if want_bs is not None else None)
+        s1 = snap()
+        net_before = sess.is_modified(merged)
+        if st == "pending" and not self.cfg.get("autoflush", True):
+            return "merge%d %s#%s" % (mode, cn, pk)      # R3: without autoflush a second merge cannot find the pending row and creates another
+        again = sess.merge(src, load=False) if mode == 2 else sess.merge(src)
+        if again is not merged:
+            self.V("C45", "merge_not_idempotent", "merging the same %s again returned another instance" % cn)
+        if snap() != s1 or (not net_before and sess.is_modified(again)):
+            self.V("C45", "merge_not_idempotent", "merging the same %s again changed the instance (%s -> %s, modified %s -> %s)"
+                   % (cn, s1, snap(), net_before, sess.is_modified(again)))
+        self.bump("probe:merge_mode_%d" % mode)
+        return "merge%d %s#%s" % (mode, cn, pk)
 
     def op_drop(self, a1, a2):
         return "skip"
@@ -1699,8 +1893,11 @@ class Run:
                     rk = OS.rel_of(U, y, r["rev"])["kind"]
                     good = any(z is o for z in OS.members(back)) if rk in ("o2m", "m2m") else (back is o)
                     if not good:
-                        self.V("C37", "backref_out_of_sync", "%s.%s contains/refers to a %s whose %s does not point back (after %s)"
-                               % (e["cls"], an, ey["cls"], r["rev"], kind), op=i)
+                        note = ""
+                        if kind == "set_p" and getattr(self, "steal_note", False) and {an, r["rev"]} == {"p", "a"}:
+                            note = " [one-to-one member taken over while a previous owner / member was loaded]"
+                        self.V("C37", "backref_out_of_sync", "%s.%s contains/refers to a %s whose %s does not point back (after %s)%s"
+                               % (e["cls"], an, ey["cls"], r["rev"], kind, note), op=i)
 
     def check_identity(self, i, kind):
         seen = {}
